@@ -3,7 +3,7 @@
    construction; continuations are arbitrary Gallina functions.  Stdlib only. *)
 From Asynq Require Export Base.
 
-Definition fid := list Z.             (* path id of a future: creator's id ++ [creation index] *)
+Definition fid := list Z.             (* id of a future: [n] = the n-th future created in this case *)
 
 Fixpoint fid_eqb (a b : fid) : bool :=
   match a, b with
